@@ -387,6 +387,30 @@ def hostile_case(rng, names, kind, relap, nul=False):
     return {"kind": "prog", "src": "\n".join(src) + "\n", "events": script, "meta": meta}
 
 
+INSTANT_BODIES = [
+    (["match Go()", "while True", '  await UtteranceBotAction(script="tick")'], "while-await-action"),
+    (["match Go()", "$n = 0", "while $n < 1000", '  await UtteranceBotAction(script="tick {$n}")', "  $n = $n + 1"], "counted-await-action"),
+    (['await UtteranceBotAction(script="tock")'], "activated-restart-on-action"),
+    (["match Go()", "while True", '  await UtteranceBotAction(script="tick")', '  $e = "t" + 3'], "loop-fails-after-first-action"),
+    # process_events feeds every OUTGOING event back in as an input event (next batch): a flow that waits for the event it sends itself
+    (["match Go()", "send Ping()", "while True", "  match Ping()", "  send Ping()"], "echo-own-outgoing-event"),
+    (["match Ping()", "send Ping()"], "activated-echo"),
+]
+
+
+def instant_case(body, name, max_events):
+    """a loop whose waiting statement is served by the event-processing API itself: `instant_actions` finishes every started bot action
+    right away and feeds the ...ActionFinished event back in. One process_events call processes at most runtime.max_events events
+    (anchor `runtime.max_events`): the bound on the number of processing rounds per call"""
+    src = ["@active", "flow ticker"] + ["  " + l for l in body] + [""]
+    script = [{"type": "Boot"}, {"type": "Go"}] + ([{"type": "Ping"}] if name == "activated-echo" else []) + [{"type": "Next"}]
+    src += observer_flows([e["type"] for e in script], "direct")
+    src += ["flow main", "  match Never()"]
+    meta = {"mode": "active", "kind": "none", "phase": "none", "waits_before": 0, "inject_at": -1, "nested": None, "expect_error": False,
+            "quick": "instant:" + name, "instant": ["UtteranceBotAction"], "max_events": max_events}
+    return {"kind": "prog", "src": "\n".join(src) + "\n", "events": script, "meta": meta}
+
+
 def gen_handler_cases(rng, tier, base_cases):
     out = []
     n_sets = len(HANDLER_SETS)
@@ -446,6 +470,9 @@ def gen_cases(rng, tier):
                 nested = None if opts.get("at_instance") else rng.choice([None, None, "if"])
                 cases.append(build_program(stmts, pos, kind, mode, nested, opts))
     cases += gen_handler_cases(rng, tier, cases)
+    for body, name in INSTANT_BODIES:
+        for me in ([12, 40] if tier == "quick" else [5, 12, 40, 120]):
+            cases.append(instant_case(body, name, me))
     return cases
 
 
@@ -723,6 +750,10 @@ def install():
         st = _R.st
         rc = _R.round_ctx
         rnd = None
+        if st is not None:
+            st["rtc_calls"] += 1
+            if st["rtc_calls"] > st["rtc_limit"]:
+                raise Budget(f"processing rounds: {st['rtc_calls']} run_to_completion calls in one process_events call > runtime.max_events + 2 = {st['rtc_limit']}")
         if st is not None and rc is not None:
             rnd = rm.Round(rc["P"], rc["idx"], rc["pot"], sm, state, ev)
             if rnd.bound is not None:
@@ -846,14 +877,18 @@ def run_impl(case):
     for ev in case["events"]:
         st = {"slides": 0, "moves": 0, "ievents": 0, "colang_errors": 0, "rtc_exc": [], "samples": [], "scans": [], "scan": None,
               "over_bound": [], "max_iter_ratio": 0.0, "budget": 10 ** 9, "rounds": [], "errs": [], "failed_uids": [], "failed_flows": [], "rtc_site": [], "leaf": [],
-              "err_texts": [], "phases": 0, "phase_limit": 10 ** 9}
+              "err_texts": [], "phases": 0, "phase_limit": 10 ** 9, "rtc_calls": 0, "rtc_limit": 10 ** 9}
         st["budget"] = BUDGET_FACTOR * (sum(len(p) for p in progs.values()) + 10)
         _R.st = st
         call = {"event": ev["type"], "out": [], "pe_exc": None, "budget_hit": None}
         signal.setitimer(signal.ITIMER_VIRTUAL, 15.0, 1.0)
+        max_events0 = _R.rt.max_events
+        if case["meta"].get("max_events"):
+            _R.rt.max_events = case["meta"]["max_events"]
+        st["rtc_limit"] = _R.rt.max_events + 2  # anchor runtime.max_events: at most that many events (= processing rounds) per call
         try:
             with contextlib.redirect_stdout(io.StringIO()):
-                out, state = asyncio.run(_R.rt.process_events([dict(ev)], state))
+                out, state = asyncio.run(_R.rt.process_events([dict(ev)], state, instant_actions=case["meta"].get("instant")))
             call["out"] = [e["type"] for e in out]
         except Budget as b:
             call["budget_hit"] = str(b)
@@ -863,6 +898,8 @@ def run_impl(case):
             signal.setitimer(signal.ITIMER_VIRTUAL, 0)
             _R.st = None
             _R.cur = None
+            _R.rt.max_events = max_events0
+        call["rtc_calls"] = st["rtc_calls"]
         call.update({k: st[k] for k in ("slides", "moves", "ievents", "colang_errors", "rtc_exc", "rtc_site", "max_iter_ratio")})
         # every flow INSTANCE in which a statement raised: what became of it by the end of this call
         call["errs"] = len(st["errs"])
@@ -1286,6 +1323,17 @@ def oracle(case, obs):
     if meta.get("expect_error") and meta["kind"] != "abort":
         if sum(c["colang_errors"] for c in obs["calls"]) == 0:
             return f"no ColangError event was produced for the injected {meta['kind']} error"
+    if meta.get("relap") and meta.get("expect_error") and meta["kind"] != "abort" and meta["mode"] == "active" and not meta.get("at_instance") \
+            and meta["waits_before"] >= 1:
+        # the walk to the erroneous statement is repeated (the activated flow was restarted after its failure): the statement is reached a
+        # second time and its error must be reported again ("a runtime error ... is reported", every time it happens)
+        evs = [c["event"] for c in obs["calls"]]
+        if "Next" in evs and any("faulty" in c.get("failed_flows", []) for c in obs["calls"][: evs.index("Next") + 1]):
+            # (only if the faulty flow ITSELF failed in the first lap: a flow stuck behind a child that failed to start is not restarted)
+            k = evs.index("Next")
+            if sum(c["colang_errors"] for c in obs["calls"][k + 1:]) == 0:
+                return (f"the erroneous statement ({meta['kind']}) was reached a second time (same walk after the restart of the activated flow) but "
+                        "no ColangError event was produced for it")
     for c in obs["calls"]:
         # "fails only that flow": the instance in which the statement raised is failed (stopped, no head left, FlowFailed processed)
         # by the end of the call that processed the event
@@ -1378,6 +1426,8 @@ def tags(case, obs):
         t.append("obs-style:" + meta["obs_style"])
     if meta.get("quick"):
         t.append("quick:" + meta["quick"])
+    if meta.get("instant") and "calls" in obs:
+        t.append("rounds-per-call:" + ("at-cap" if any(c.get("rtc_calls", 0) >= meta["max_events"] for c in obs["calls"]) else "below-cap"))
     if meta.get("handlers"):
         for h in meta["handlers"]:
             t.append("handler:" + h)
